@@ -45,8 +45,8 @@ C["C17"] = ("Second sentence of the property, as the precondition of the assumed
 
 C["C01"] = ("Bounded stand-ins (deductive, all values symbolic; never counted as proved): one credit-control step of one request with one rating group, one online used-unit container, no trigger and both peers answering conserves money - account balance + reservation held == the same sum before - unit cost x reported volume - in debit mode (final report: refund of the unused reservation or debit of the excess, reservation left 0) for every unit cost, and in reserve mode when the held reservation covers the usage at unit cost 1. Proved without bound: the CHF decodes the tariff to the unit cost the rating server applied (getUnitCost, integer tariffs), FindRatingGroup is an exact search. The account-balance and rating servers' own arithmetic is C07/C08.",
                "The peers' behaviour is restated from the server-side contracts as assumed clauses on the Diameter clients (ghost balance and tariff). Not decided and not claimed: conservation across a new reservation in reserve mode (undecided even at unit cost 1), symbolic unit cost in reserve mode (decided only up to cost 4 in about two minutes), several rating groups or containers per request, the history-long invariant, recharges, failure paths (a lost answer).")
-C["C06"] = ("Bounded stand-ins (same setting as C01, reserve mode at unit cost 1, all four scenarios: rating group known/new x reservation held/needed): after a reservation step the account balance is not negative, and the granted volume is at most what the money available buys - min(price of the requested volume, money held for the rating group) / unit cost. In debit mode the reservation ends at 0. The server side (grant == min(requested, balance), final-unit indication iff short) is proved without bound in C07.",
-               "Found and repaired with this clause: the full requested volume was granted whatever the account could reserve (fix dd053e2). Not claimed: that the final-unit indication reaches the Nchf response entry (C06-m1 is missed), symbolic unit cost, several rating groups per request, 'never negative' over a whole history.")
+C["C06"] = ("Bounded stand-ins (same setting as C01, reserve mode at unit cost 1, all four scenarios: rating group known/new x reservation held/needed): after a reservation step the account balance is not negative, the granted volume is at most what the money available buys - min(price of the requested volume, money held for the rating group) / unit cost - and the response entry carries final-unit action TERMINATE exactly when the account cannot cover the reservation the request needs. In debit mode the reservation ends at 0. The server side (grant == min(requested, balance), final-unit indication iff short) is proved without bound in C07.",
+               "Found and repaired with this clause: the full requested volume was granted whatever the account could reserve (fix dd053e2). Not claimed: requests with several rating groups (the aliasing of C06-m1 needs two), symbolic unit cost, several rating groups per request, 'never negative' over a whole history.")
 
 NA = {
  "C19": "Matching late answers to requests is a timing/ordering property of channels and goroutines (select with time.After, per-subscriber channel shared across requests); govc models sequential code only.",
